@@ -227,7 +227,7 @@ Theorem C15_factory_choice_value_free_C04_kernels :
     = fst (run_inversion (KR c m Kp encf dec slv ldc ldr) (with_wt false inp) code empty_store qs).
 Proof. exact c04_factory_choice_value_free. Qed.
 
-(* 11. Preloads.set_*(fit_0, fit_1) -- the production path that fills the slots.  [make_fit K inp own cmdm]: the inversion of a fit
+(* 11. Preloads.set_*(fit_0, fit_1) -- the production path that fills the slots.  [make_fit K inp own]: the inversion of a fit
        as the factory builds it (own = its own Preloads object); [freads]: attributes read from it; [run_setters K code Cm ss P f0 f1]:
        the methods ss (any of set_w_tilde_imaging, set_operated_mapping_matrix_with_preloads, set_linear_func_inversion_dicts,
        set_curvature_matrix, set_regularization_matrix_and_term, in any order, repetitions allowed) called on the Preloads object P
@@ -237,9 +237,9 @@ Proof. exact c04_factory_choice_value_free. Qed.
        alias, of its cached curvature matrix is stored), and every later history of inversions that the factory builds in fit_0's
        class on fit_0's inputs returns the specification values. *)
 Theorem C15_set_preloads_store_fresh_values :
-  forall (T : Type) (K : kernels T) (Cm : cmpk T) (inp0 : input T) (own0 : pstore T) (cmdm0 : res (mat T)) (f0 f1 : fit T)
+  forall (T : Type) (K : kernels T) (Cm : cmpk T) (inp0 : input T) (own0 : pstore T) (f0 f1 : fit T)
          (reads0 : list qty) (ss : list setter) (P : pstore T),
-    make_fit K inp0 own0 cmdm0 = Ok f0 -> consistent K inp0 (f_mode f0) own0 -> set_laws K inp0 (f_mode f0) ->
+    make_fit K inp0 own0 = Ok f0 -> consistent K inp0 (f_mode f0) own0 -> set_laws K inp0 (f_mode f0) ->
     consistent K inp0 (f_mode f0) P ->
     let f0a := snd (freads K code f0 reads0) in
     let r := run_setters K code Cm ss P f0a f1 in
@@ -251,9 +251,9 @@ Theorem C15_set_preloads_store_fresh_values :
 Proof. exact set_preloads_fresh. Qed.
 Theorem C15_set_preloads_store_fresh_values_C04_kernels :
   forall (c : @convolver ROps) (m : mask) (Kp : @kernel ROps) encf dec slv ldc ldr (Cm : cmpk R)
-         (inp0 : input R) (np : nat) own0 cmdm0 f0 f1 reads0 ss P,
+         (inp0 : input R) (np : nat) own0 f0 f1 reads0 ss P,
     wf_input c encf np inp0 ->
-    make_fit (KR c m Kp encf dec slv ldc ldr) inp0 own0 cmdm0 = Ok f0 ->
+    make_fit (KR c m Kp encf dec slv ldc ldr) inp0 own0 = Ok f0 ->
     consistent (KR c m Kp encf dec slv ldc ldr) inp0 (f_mode f0) own0 ->
     consistent (KR c m Kp encf dec slv ldc ldr) inp0 (f_mode f0) P ->
     let K := KR c m Kp encf dec slv ldc ldr in
@@ -267,7 +267,7 @@ Proof. exact c04_set_preloads_fresh. Qed.
 (* non-vacuity of 11: one regularized mapper, mapping class; all five methods fill curvature_matrix, operated_mapping_matrix,
    regularization_matrix, the log-determinant and use_w_tilde, and the factory still builds fit_0's class *)
 Example C15_hyps_set_preloads :
-  make_fit zk inpB empty_store (Ok [[1]]%Z) = Ok fitB /\ consistent zk inpB (f_mode fitB) empty_store /\
+  make_fit zk inpB empty_store = Ok fitB /\ consistent zk inpB (f_mode fitB) empty_store /\
   set_laws zk inpB (f_mode fitB) /\
   (let P' := snd (fst (fst (run_setters zk code zcmp [SetWt; SetOmm; SetLf; SetCurv; SetReg] empty_store
                                          (snd (freads zk code fitB [QCurv])) fitB))) in
